@@ -1,269 +1,701 @@
 import MqttVerif.Proofs.EnvOk
 /-
-  "No Deferred is left hanging": every Deferred that has been handed to the application and has not fired is still
-  owned by an unfinished request (an entry of some container) or by a handshake record -- nothing is silently dropped.
-  Stated as an invariant `Owned` and shown to be preserved with the help of a summary relation `Keeps w w'` between the
-  world before and after a (composite) transition.
+  "No Deferred is left hanging", continued (definitions in Proofs/Keeps.lean): every transition of the model is
+  shown to keep owners (`Keeps`), so `Owned` -- every Deferred handed to the application and not yet fired is held by an
+  unfinished request or handshake record -- is an invariant of every reachable world.
 -/
 namespace Mqtt
 
-/-- some unfinished request or handshake record holds Deferred `d` -/
-def OwnedBy (w : World) (d : Nat) : Prop :=
-  (∃ e ∈ w.ents, (w.req e.rid).dfd = some d) ∨ (∃ cr c, w.connReqs.get? cr = some c ∧ c.dfd = some d)
+/-! ### acknowledgements: the entry leaves its window with its own Deferred fired (PUBACK, PUBCOMP, SUBACK, UNSUBACK) or moves,
+    Deferred included, to the release window (PUBREC) -/
 
-/-- every allocated, unfired Deferred has an owner -/
-def Owned (w : World) : Prop := ∀ d, d < w.nextDfd → d ∉ w.fired → OwnedBy w d
+theorem handlePUBACK_kq {w : World} (h : WInv w) (p : Nat) (ppr : Proto) (hpp : w.protos.get? p = some ppr)
+    (hlive : ppr.lost = false) (hconn : ppr.state = .connected) (m : Nat) : KQ w (handlePUBACK p m w).1 := by
+  have hpa : w.paddr p = ppr.addr := by simp [World.paddr, getD_of_get? hpp]
+  cases hl : Ents.lookup w.ents ppr.addr .pub m with
+  | none => rw [handlePUBACK_unknown p m w (by rw [hpa]; exact hl)]; exact KQ.refl w
+  | some rid =>
+    obtain ⟨t, d, ht, hd, _, _, heq⟩ := handlePUBACK_effect h p ppr hpp hlive hconn m rid hl
+    rw [heq]
+    intro hq
+    have he := Ents.lookup_some hl
+    have hb : (⟨ppr.addr, .pub, m, rid⟩ : Ent).box ≠ .queue := by simp
+    obtain ⟨k1, q1⟩ := keeps_settle h he hb t d hd (.fired d (.ok (.int m)))
+    have hS := settle_inv h he hb ht hd (.fired d (.ok (.int m)))
+    obtain ⟨k2, q2⟩ := refillW_keeps p false ppr hlive _ hS hpp (q1 hq)
+    exact ⟨k1.trans k2, q2⟩
 
-/-- requests without identifier (QoS 0) carry no Deferred -/
-def Q0 (w : World) : Prop := ∀ e ∈ w.ents, (w.req e.rid).msgId = 0 → (w.req e.rid).dfd = none
+theorem handlePUBCOMP_kq {w : World} (h : WInv w) (p : Nat) (ppr : Proto) (hpp : w.protos.get? p = some ppr)
+    (hlive : ppr.lost = false) (hconn : ppr.state = .connected) (m : Nat) : KQ w (handlePUBCOMP p m w).1 := by
+  have hpa : w.paddr p = ppr.addr := by simp [World.paddr, getD_of_get? hpp]
+  cases hl : Ents.lookup w.ents ppr.addr .rel m with
+  | none => rw [handlePUBCOMP_unknown p m w (by rw [hpa]; exact hl)]; exact KQ.refl w
+  | some rid =>
+    obtain ⟨t, d, ht, hd, _, _, heq⟩ := handlePUBCOMP_effect h p ppr hpp hlive hconn m rid hl
+    rw [heq]
+    intro hq
+    have he := Ents.lookup_some hl
+    have hb : (⟨ppr.addr, .rel, m, rid⟩ : Ent).box ≠ .queue := by simp
+    obtain ⟨k1, q1⟩ := keeps_settle h he hb t d hd (.fired d (.ok (.int m)))
+    have hS := settle_inv h he hb ht hd (.fired d (.ok (.int m)))
+    obtain ⟨k2, q2⟩ := refillW_keeps p false ppr hlive _ hS hpp (q1 hq)
+    exact ⟨k1.trans k2, q2⟩
 
-/-- what a transition does to Deferreds: an owned one stays owned or fires; fired ones stay fired; new ones are owned or fired -/
-structure Keeps (w w' : World) : Prop where
-  own : ∀ d, OwnedBy w d → d ∈ w'.fired ∨ OwnedBy w' d
-  fmono : ∀ d ∈ w.fired, d ∈ w'.fired
-  nd : w.nextDfd ≤ w'.nextDfd
-  fresh : ∀ d, w.nextDfd ≤ d → d < w'.nextDfd → d ∈ w'.fired ∨ OwnedBy w' d
+theorem handleSubUnsubAck_kq {w : World} (h : WInv w) (p : Nat) (ppr : Proto) (hpp : w.protos.get? p = some ppr)
+    (hlive : ppr.lost = false) (hconn : ppr.state = .connected) (isSub : Bool) (m : Nat) (v : Val) :
+    KQ w (handleSubUnsubAck p isSub m v w).1 := by
+  have hpa : w.paddr p = ppr.addr := by simp [World.paddr, getD_of_get? hpp]
+  cases hl : Ents.lookup w.ents ppr.addr (if isSub then .sub else .unsub) m with
+  | none => rw [handleSubUnsubAck_unknown p isSub m v w (by rw [hpa]; exact hl)]; exact KQ.refl w
+  | some rid =>
+    obtain ⟨t, d, ht, hd, _, _, heq⟩ := handleSubUnsubAck_effect h p ppr hpp hlive hconn isSub m rid v hl
+    rw [heq]
+    intro hq
+    have he := Ents.lookup_some hl
+    have hb : (⟨ppr.addr, if isSub then .sub else .unsub, m, rid⟩ : Ent).box ≠ .queue := by cases isSub <;> simp
+    obtain ⟨k1, q1⟩ := keeps_settle h he hb t d hd (.fired d (.ok v))
+    exact ⟨k1, q1 hq⟩
 
-theorem Keeps.refl (w : World) : Keeps w w := ⟨fun _ h => Or.inr h, fun _ h => h, Nat.le_refl _, fun d h1 h2 => absurd h2 (by omega)⟩
-
-theorem Keeps.trans {w1 w2 w3 : World} (a : Keeps w1 w2) (b : Keeps w2 w3) : Keeps w1 w3 := by
-  refine ⟨fun d h => ?_, fun d h => b.fmono d (a.fmono d h), Nat.le_trans a.nd b.nd, fun d h1 h2 => ?_⟩
-  · rcases a.own d h with h | h
-    · exact Or.inl (b.fmono d h)
-    · exact b.own d h
-  · by_cases hd : d < w2.nextDfd
-    · rcases a.fresh d h1 hd with h | h
-      · exact Or.inl (b.fmono d h)
-      · exact b.own d h
-    · exact b.fresh d (by omega) h2
-
-theorem Owned.keeps {w w' : World} (h : Owned w) (k : Keeps w w') : Owned w' := by
-  intro d hd hnf
-  by_cases hd0 : d < w.nextDfd
-  · have hnf0 : d ∉ w.fired := fun hc => hnf (k.fmono d hc)
-    rcases k.own d (h d hd0 hnf0) with h1 | h1
-    · exact absurd h1 hnf
-    · exact h1
-  · rcases k.fresh d (by omega) hd with h1 | h1
-    · exact absurd h1 hnf
-    · exact h1
-
-/-- nothing that concerns Deferreds changes -/
-theorem keeps_core {w w' : World} (he : w'.ents = w.ents) (hr : ∀ r, (w'.req r).dfd = (w.req r).dfd) (hf : w'.fired = w.fired)
-    (hc : w'.connReqs = w.connReqs) (hn : w'.nextDfd = w.nextDfd) : Keeps w w' := by
-  refine ⟨fun d h => Or.inr ?_, fun d h => hf ▸ h, by rw [hn]; exact Nat.le_refl _, fun d h1 h2 => absurd h2 (by omega)⟩
-  rcases h with ⟨e, he', hd⟩ | ⟨cr, c, h1, h2⟩
-  · exact Or.inl ⟨e, he ▸ he', by rw [hr]; exact hd⟩
-  · exact Or.inr ⟨cr, c, hc ▸ h1, h2⟩
-
-theorem q0_core {w w' : World} (he : w'.ents = w.ents) (hr : ∀ r, (w'.req r).dfd = (w.req r).dfd ∧ (w'.req r).msgId = (w.req r).msgId)
-    (h : Q0 w) : Q0 w' := by
-  intro e he' hm
-  rw [he] at he'
-  rw [(hr e.rid).1]; rw [(hr e.rid).2] at hm
-  exact h e he' hm
-
-/-- entries leave their containers, each with its Deferred fired (or without Deferred) -/
-theorem keeps_removed {w w' : World} (hr : ∀ r, (w'.req r).dfd = (w.req r).dfd) (hc : w'.connReqs = w.connReqs) (hn : w'.nextDfd = w.nextDfd)
-    (hf : ∀ d ∈ w.fired, d ∈ w'.fired)
-    (hrem : ∀ y ∈ w.ents, y ∈ w'.ents ∨ ∀ d, (w.req y.rid).dfd = some d → d ∈ w'.fired) : Keeps w w' := by
-  refine ⟨fun d h => ?_, hf, by rw [hn]; exact Nat.le_refl _, fun d h1 h2 => absurd h2 (by omega)⟩
-  rcases h with ⟨e, he', hd⟩ | ⟨cr, c, h1, h2⟩
-  · rcases hrem e he' with h1 | h1
-    · exact Or.inr (Or.inl ⟨e, h1, by rw [hr]; exact hd⟩)
-    · exact Or.inl (h1 d hd)
-  · exact Or.inr (Or.inr ⟨cr, c, hc ▸ h1, h2⟩)
-
-theorem q0_removed {w w' : World} (hr : ∀ r, (w'.req r).dfd = (w.req r).dfd ∧ (w'.req r).msgId = (w.req r).msgId)
-    (hsub : ∀ y ∈ w'.ents, y ∈ w.ents) (h : Q0 w) : Q0 w' := by
-  intro e he' hm
-  rw [(hr e.rid).1]; rw [(hr e.rid).2] at hm
-  exact h e (hsub e he') hm
-
-/-- firing a Deferred (and anything else that touches neither containers, request Deferreds, handshake records nor the Deferred
-    counter) keeps every owner in place -/
-theorem keeps_fire {w w' : World} (he : w'.ents = w.ents) (hr : ∀ r, (w'.req r).dfd = (w.req r).dfd)
-    (hc : w'.connReqs = w.connReqs) (hn : w'.nextDfd = w.nextDfd) (hf : ∀ d ∈ w.fired, d ∈ w'.fired) : Keeps w w' := by
-  refine ⟨fun d h => Or.inr ?_, hf, by rw [hn]; exact Nat.le_refl _, fun d h1 h2 => absurd h2 (by omega)⟩
-  rcases h with ⟨e, he', hd⟩ | ⟨cr, c, h1, h2⟩
-  · exact Or.inl ⟨e, he ▸ he', by rw [hr]; exact hd⟩
-  · exact Or.inr ⟨cr, c, hc ▸ h1, h2⟩
-
-/-- an in-flight request is settled: its entry leaves the window and its own Deferred fires -/
-theorem keeps_settle {x : Option Nat} {w : World} (h : WInvX x w) {e : Ent} (he : e ∈ w.ents) (hq : e.box ≠ .queue) (t d : Nat)
-    (hd : (w.req e.rid).dfd = some d) (o : Obs) : Keeps w (fireD (dropArmed w e t) d o) ∧ (Q0 w → Q0 (fireD (dropArmed w e t) d o)) := by
-  have hmem := dropArmed_mem h he hq t
-  refine ⟨keeps_removed (fun _ => rfl) rfl rfl (fun d' hd' => by simp only [fireD, List.mem_cons]; exact Or.inr hd') (fun y hy => ?_), fun hq0 => ?_⟩
-  · by_cases hye : y = e
-    · subst hye
-      right; intro d' hd'
-      rw [hd] at hd'; injection hd' with hd'; subst hd'
-      simp [fireD]
-    · left; exact (hmem y).mpr ⟨hy, hye⟩
-  · exact q0_removed (w := w) (fun _ => ⟨rfl, rfl⟩) (fun y hy => ((hmem y).mp hy).1) hq0
-
-theorem Ents.mem_insert_self (es : List Ent) (a : Nat) (b : Box) (k rid : Nat) : (⟨a, b, k, rid⟩ : Ent) ∈ Ents.insert es a b k rid := by
-  induction es with
-  | nil => simp [Ents.insert]
-  | cons e r ih =>
-    simp only [Ents.insert]
-    split
-    · simp
-    · exact List.mem_cons_of_mem _ ih
-
-/-- the retransmission helpers touch no container, no Deferred, no handshake record -/
-theorem retryPublishW_core (p rid : Nat) (dup : Bool) (w : World) :
-    (retryPublishW p rid dup w).ents = w.ents ∧ (retryPublishW p rid dup w).fired = w.fired ∧ (retryPublishW p rid dup w).connReqs = w.connReqs ∧
-    (retryPublishW p rid dup w).nextDfd = w.nextDfd ∧ ∀ r, ((retryPublishW p rid dup w).req r).dfd = (w.req r).dfd ∧ ((retryPublishW p rid dup w).req r).msgId = (w.req r).msgId := by
-  refine ⟨retryPublishW_ents p rid dup w, (retryPublishW_writes p rid dup w).1, retryPublishW_connReqs p rid dup w, ?_, fun r => ?_⟩
-  · simp only [retryPublishW]; split <;> simp
-  · simp only [retryPublishW, req_setReq, ↓reduceIte]
-    split <;> (simp only [emit_req, req_setReq, callLater_req]; by_cases hr : rid = r <;> simp [hr])
-
-theorem retryReleaseW_core (p rid : Nat) (dup : Bool) (w : World) :
-    (retryReleaseW p rid dup w).ents = w.ents ∧ (retryReleaseW p rid dup w).fired = w.fired ∧ (retryReleaseW p rid dup w).connReqs = w.connReqs ∧
-    (retryReleaseW p rid dup w).nextDfd = w.nextDfd ∧ ∀ r, ((retryReleaseW p rid dup w).req r).dfd = (w.req r).dfd ∧ ((retryReleaseW p rid dup w).req r).msgId = (w.req r).msgId := by
-  refine ⟨retryReleaseW_ents p rid dup w, (retryReleaseW_writes p rid dup w).1, retryReleaseW_connReqs p rid dup w, ?_, fun r => ?_⟩
-  · simp only [retryReleaseW]; split <;> simp
-  · simp only [retryReleaseW]
-    split <;> (simp only [emit_req, req_setReq, callLater_req]; by_cases hr : rid = r <;> simp [hr])
-
-theorem retrySubUnsubW_core (p rid : Nat) (dup s : Bool) (w : World) :
-    (retrySubUnsubW p rid dup s w).ents = w.ents ∧ (retrySubUnsubW p rid dup s w).fired = w.fired ∧ (retrySubUnsubW p rid dup s w).connReqs = w.connReqs ∧
-    (retrySubUnsubW p rid dup s w).nextDfd = w.nextDfd ∧ ∀ r, ((retrySubUnsubW p rid dup s w).req r).dfd = (w.req r).dfd ∧ ((retrySubUnsubW p rid dup s w).req r).msgId = (w.req r).msgId := by
-  refine ⟨retrySubUnsubW_ents p rid dup s w, (retrySubUnsubW_writes p rid dup s w).1, ?_, ?_, fun r => ?_⟩
-  · simp only [retrySubUnsubW]; split <;> simp
-  · simp only [retrySubUnsubW]; split <;> simp
-  · simp only [retrySubUnsubW]
-    split <;> (simp only [emit_req, req_setReq, callLater_req]; by_cases hr : rid = r <;> simp [hr])
-
-/-- the five facts of `keeps_core`/`q0_core`, as one record -/
-structure CoreSame (w w' : World) : Prop where
-  ents : w'.ents = w.ents
-  fired : w'.fired = w.fired
-  connReqs : w'.connReqs = w.connReqs
-  nextDfd : w'.nextDfd = w.nextDfd
-  req : ∀ r, (w'.req r).dfd = (w.req r).dfd ∧ (w'.req r).msgId = (w.req r).msgId
-
-theorem CoreSame.refl (w : World) : CoreSame w w := ⟨rfl, rfl, rfl, rfl, fun _ => ⟨rfl, rfl⟩⟩
-theorem CoreSame.trans {a b c : World} (h1 : CoreSame a b) (h2 : CoreSame b c) : CoreSame a c :=
-  ⟨by rw [h2.ents, h1.ents], by rw [h2.fired, h1.fired], by rw [h2.connReqs, h1.connReqs], by rw [h2.nextDfd, h1.nextDfd],
-   fun r => ⟨by rw [(h2.req r).1, (h1.req r).1], by rw [(h2.req r).2, (h1.req r).2]⟩⟩
-theorem CoreSame.keeps {w w' : World} (h : CoreSame w w') : Keeps w w' := keeps_core h.ents (fun r => (h.req r).1) h.fired h.connReqs h.nextDfd
-theorem CoreSame.q0 {w w' : World} (h : CoreSame w w') (hq : Q0 w) : Q0 w' := q0_core h.ents h.req hq
-
-theorem retryPublishW_same (p rid : Nat) (dup : Bool) (w : World) : CoreSame w (retryPublishW p rid dup w) := by
-  obtain ⟨a, b, c, d, e⟩ := retryPublishW_core p rid dup w; exact ⟨a, b, c, d, e⟩
-theorem retryReleaseW_same (p rid : Nat) (dup : Bool) (w : World) : CoreSame w (retryReleaseW p rid dup w) := by
-  obtain ⟨a, b, c, d, e⟩ := retryReleaseW_core p rid dup w; exact ⟨a, b, c, d, e⟩
-theorem retrySubUnsubW_same (p rid : Nat) (dup s : Bool) (w : World) : CoreSame w (retrySubUnsubW p rid dup s w) := by
-  obtain ⟨a, b, c, d, e⟩ := retrySubUnsubW_core p rid dup s w; exact ⟨a, b, c, d, e⟩
-
-theorem foldl_same (l : List Ent) (f : World → Ent → World) (hf : ∀ w e, CoreSame w (f w e)) (w : World) : CoreSame w (l.foldl f w) := by
-  induction l generalizing w with
-  | nil => exact CoreSame.refl w
-  | cons e r ih => exact (hf w e).trans (ih _)
-
-/-- `_syncSession` touches no container, no Deferred, no handshake record -/
-theorem syncW_same (p : Nat) (w : World) : CoreSame w (syncW p w) := by
-  simp only [syncW]
-  refine (foldl_same _ _ (fun w e => ?_) w).trans (foldl_same _ _ (fun w e => ?_) _)
-  · split
-    · exact retryReleaseW_same _ _ _ _
-    · exact CoreSame.refl _
-  · split
-    · exact retryPublishW_same _ _ _ _
-    · exact CoreSame.refl _
-
-/-! ### `_refillPublish`: a held-back request moves into the publish window (same request object) or, without identifier
-    and hence without Deferred, is just written -/
-
-theorem launch_keeps {x : Option Nat} {w : World} (h : WInvX x w) (hq0 : Q0 w) (p : Nat) (dup : Bool) (a : Nat) {e : Ent} {rest : List Ent}
-    (hitems : Ents.items w.ents a .queue = e :: rest) :
-    let w2 := retryPublishW p e.rid dup
-      (if (w.req e.rid).msgId ≠ 0 then
-        (w.setEnts fun es => Ents.dropFirst es a .queue).setEnts fun es => Ents.insert es a .pub (w.req e.rid).msgId e.rid
-       else w.setEnts fun es => Ents.dropFirst es a .queue)
-    Keeps w w2 ∧ Q0 w2 := by
-  intro w2
-  have hein : e ∈ Ents.items w.ents a .queue := by rw [hitems]; simp
-  obtain ⟨he, hea, heb⟩ := Ents.mem_items.mp hein
-  obtain ⟨hd1, hd2, hd3⟩ := Ents.dropFirst_spec hitems h.nodup
-  obtain ⟨w1, hw1⟩ : ∃ w1 : World, w1 = (if (w.req e.rid).msgId ≠ 0 then
-        (w.setEnts fun es => Ents.dropFirst es a .queue).setEnts fun es => Ents.insert es a .pub (w.req e.rid).msgId e.rid
-       else w.setEnts fun es => Ents.dropFirst es a .queue) := ⟨_, rfl⟩
-  have hsame := retryPublishW_same p e.rid dup w1
-  have hw2 : w2 = retryPublishW p e.rid dup w1 := by rw [hw1]
-  have hreq1 : ∀ r, w1.req r = w.req r := by intro r; rw [hw1]; split <;> rfl
-  have hf1 : w1.fired = w.fired := by rw [hw1]; split <;> rfl
-  have hc1 : w1.connReqs = w.connReqs := by rw [hw1]; split <;> rfl
-  have hn1 : w1.nextDfd = w.nextDfd := by rw [hw1]; split <;> rfl
-  -- entries of `w` other than `e` survive; `e` itself survives as a publish-window entry when it has an identifier
-  have hsurv : ∀ y ∈ w.ents, y ≠ e → y ∈ w1.ents := by
-    intro y hy hne
-    have hy1 : y ∈ Ents.dropFirst w.ents a .queue := (hd1 y).mpr ⟨hy, hne⟩
-    rw [hw1]
-    split
-    · rename_i hm0
-      show y ∈ Ents.insert (Ents.dropFirst w.ents a .queue) a .pub (w.req e.rid).msgId e.rid
-      -- the identifier is not a key of the publish window yet, so `insert` appends
-      have hlook : Ents.lookup (Ents.dropFirst w.ents a .queue) a .pub (w.req e.rid).msgId = none := by
-        cases hl : Ents.lookup (Ents.dropFirst w.ents a .queue) a .pub (w.req e.rid).msgId with
-        | none => rfl
-        | some rid =>
-          have hm := Ents.lookup_some hl
-          obtain ⟨hy', hne'⟩ := (hd1 _).mp hm
-          have := h.idUnique _ hy' e he (by simp [idOf, heb]) (by simp [idOf]; exact hm0)
-          exact absurd this hne'
-      rw [Ents.insert_of_lookup_none _ hlook]
-      exact List.mem_append_left _ hy1
-    · exact hy1
-  have hk1 : Keeps w w1 := by
-    refine ⟨fun d hd => Or.inr ?_, fun d hd => hf1 ▸ hd, by rw [hn1]; exact Nat.le_refl _, fun d h1 h2 => absurd h2 (by omega)⟩
-    rcases hd with ⟨y, hy, hyd⟩ | ⟨cr, c, c1, c2⟩
-    · by_cases hye : y = e
+theorem afterPubrec_kq {w : World} (h : WInv w) (a m rid t : Nat) (bs : Bytes) (i : Nat) (he : (⟨a, .pub, m, rid⟩ : Ent) ∈ w.ents) :
+    KQ w (afterPubrec w a m rid t bs i) := by
+  intro hq
+  have hb : (⟨a, .pub, m, rid⟩ : Ent).box ≠ .queue := by simp
+  have hmem := dropArmed_mem h he hb t
+  have hk := h.keyId _ he hb
+  -- the new request record sits at a fresh index: every request an entry refers to is untouched
+  have hreq : ∀ y ∈ w.ents, (afterPubrec w a m rid t bs i).req y.rid = w.req y.rid := by
+    intro y hy
+    have := h.ridFresh y hy
+    simp only [afterPubrec, World.req, dropArmed, Dict.get?_set]
+    rw [if_neg (by omega)]
+  have hnew : (afterPubrec w a m rid t bs i).req w.nextReq =
+      { kind := .pubrel, msgId := m, qos := (w.req rid).qos, encoded := bs, dfd := (w.req rid).dfd, alarm := none, initial := i, ivValue := i, ivK := 1, bandwith := 1, factor := 1, seq := (w.req rid).seq } := by
+    simp [afterPubrec, World.req, dropArmed, Dict.get?_set]
+  have hents : ∀ y, y ∈ (afterPubrec w a m rid t bs i).ents ↔ (y ∈ w.ents ∧ y ≠ ⟨a, .pub, m, rid⟩) ∨ y = ⟨a, .rel, m, w.nextReq⟩ := by
+    intro y
+    simp only [afterPubrec, List.mem_append, List.mem_singleton]
+    rw [hmem y]
+  refine ⟨⟨fun d hd => Or.inr ?_, fun d hd => hd, Nat.le_refl _, fun d h1 h2 => absurd h2 (by simp only [afterPubrec, dropArmed]; omega)⟩, ?_⟩
+  · rcases hd with ⟨y, hy, hyd⟩ | ⟨cr, c, c1, c2⟩
+    · by_cases hye : y = ⟨a, .pub, m, rid⟩
       · subst hye
-        by_cases hm0 : (w.req y.rid).msgId = 0
-        · rw [hq0 y hy hm0] at hyd; cases hyd
-        · refine Or.inl ⟨⟨a, .pub, (w.req y.rid).msgId, y.rid⟩, ?_, by rw [hreq1]; exact hyd⟩
-          rw [hw1]; simp only [ne_eq, hm0, not_false_eq_true, ↓reduceIte]
-          exact Ents.mem_insert_self _ _ _ _ _
-      · exact Or.inl ⟨y, hsurv y hy hye, by rw [hreq1]; exact hyd⟩
-    · exact Or.inr ⟨cr, c, hc1 ▸ c1, c2⟩
-  have hq1 : Q0 w1 := by
-    intro y hy hm
-    rw [hreq1] at hm ⊢
-    rw [hw1] at hy
-    split at hy
-    · rcases Ents.mem_insert hy with hy | hy
-      · exact hq0 y (Ents.mem_dropFirst hy) hm
-      · subst hy; exact hq0 e he hm
-    · exact hq0 y (Ents.mem_dropFirst hy) hm
-  rw [hw2]
-  exact ⟨hk1.trans hsame.keeps, hsame.q0 hq1⟩
+        exact Or.inl ⟨⟨a, .rel, m, w.nextReq⟩, (hents _).mpr (Or.inr rfl), by rw [hnew]; exact hyd⟩
+      · exact Or.inl ⟨y, (hents y).mpr (Or.inl ⟨hy, hye⟩), by rw [hreq y hy]; exact hyd⟩
+    · exact Or.inr ⟨cr, c, c1, c2⟩
+  · intro y hy hm0
+    rcases (hents y).mp hy with ⟨hy1, _⟩ | rfl
+    · rw [hreq y hy1] at hm0 ⊢; exact hq y hy1 hm0
+    · rw [hnew] at hm0; simp only at hm0
+      have := hk.2; simp only at this; omega
 
-theorem refillW_keeps {x : Option Nat} (p : Nat) (dup : Bool) (ppr : Proto) (hlive : ppr.lost = false) (fuel : Nat) :
-    ∀ {w : World}, WInvX x w → w.protos.get? p = some ppr → Q0 w → Keeps w (refillW p dup fuel w) ∧ Q0 (refillW p dup fuel w) := by
+theorem handlePUBREC_kq {w : World} (h : WInv w) (p : Nat) (ppr : Proto) (hpp : w.protos.get? p = some ppr)
+    (hlive : ppr.lost = false) (hconn : ppr.state = .connected) (m : Nat) (hm : m < 65536) : KQ w (handlePUBREC p m w).1 := by
+  have hpa : w.paddr p = ppr.addr := by simp [World.paddr, getD_of_get? hpp]
+  cases hl : Ents.lookup w.ents ppr.addr .pub m with
+  | none => rw [handlePUBREC_unknown p m w (by rw [hpa]; exact hl)]; exact KQ.refl w
+  | some rid =>
+    obtain ⟨t, bs, _, _, heq⟩ := handlePUBREC_effect h p ppr hpp hlive hconn m hm rid hl
+    rw [heq]
+    exact (afterPubrec_kq h ppr.addr m rid t bs ppr.initialT (Ents.lookup_some hl)).trans (retryReleaseW_same _ _ _ _).kq
+
+/-! ### dataReceived -/
+
+theorem abort_same (p : Nat) (w : World) : CoreSame w (w.emit (.abort p)) := emit_same w _
+
+theorem processPacket_kq {w : World} (h : WInv w) (p : Nat) (ppr : Proto) (hpp : w.protos.get? p = some ppr)
+    (hnl : ppr.lost = false) (pkt : Bytes) (hne : pkt ≠ []) (hwf : Bytes.WF pkt) : KQ w (processPacket p pkt w).1 := by
+  unfold processPacket abort
+  split
+  · exact absurd rfl hne
+  · rename_i h0 rest
+    dsimp only
+    have ht := nibble_lt h0
+    generalize (h0 &&& 0xF0) >>> 4 = t at ht ⊢
+    split
+    · exact (emit_same w _).kq
+    · split
+      · exact (emit_same w _).kq
+      · simp only [read_apply]
+        have hst := fun op hop ha => allowed_state h p ppr hpp op hop ha
+        have : t = 0 ∨ t = 1 ∨ t = 2 ∨ t = 3 ∨ t = 4 ∨ t = 5 ∨ t = 6 ∨ t = 7 ∨ t = 8 ∨ t = 9 ∨ t = 10 ∨ t = 11 ∨ t = 12 ∨
+            t = 13 ∨ t = 14 ∨ t = 15 := by omega
+        rcases this with rfl | rfl | rfl | rfl | rfl | rfl | rfl | rfl | rfl | rfl | rfl | rfl | rfl | rfl | rfl | rfl
+        all_goals (try simp only [])
+        all_goals (try exact (emit_same w _).kq)
+        · -- CONNACK
+          cases hd : ConnackF.decode (h0 :: rest) with
+          | error e => exact (emit_same w _).kq
+          | ok c =>
+            simp only
+            by_cases ha : allowed w p 6 = true
+            · simp only [ha, ↓reduceIte]
+              exact (handleCONNACK_full h p ppr hpp hnl ((hst 6 (by omega) ha).2.1 rfl) _ _).2.2
+            · simp only [ha, Bool.false_eq_true, ↓reduceIte]; exact KQ.refl w
+        · -- PUBLISH
+          cases hd : PublishD.decode (h0 :: rest) with
+          | error e => exact (emit_same w _).kq
+          | ok d =>
+            simp only
+            by_cases ha : allowed w p 10 = true
+            · simp only [ha, ↓reduceIte]
+              exact (cs_handlePUBLISH p _ w).kq
+            · simp only [ha, Bool.false_eq_true, ↓reduceIte]; exact KQ.refl w
+        · -- PUBACK
+          cases hd : decodeAck (h0 :: rest) with
+          | error e => exact (emit_same w _).kq
+          | ok m =>
+            simp only
+            by_cases ha : allowed w p 11 = true
+            · simp only [ha, ↓reduceIte]
+              exact handlePUBACK_kq h p ppr hpp hnl ((hst 11 (by omega) ha).2.2.1 (by omega) (by omega) (by omega)) m
+            · simp only [ha, Bool.false_eq_true, ↓reduceIte]; exact KQ.refl w
+        · -- PUBREC
+          cases hd : decodeAck (h0 :: rest) with
+          | error e => exact (emit_same w _).kq
+          | ok m =>
+            simp only
+            by_cases ha : allowed w p 12 = true
+            · simp only [ha, ↓reduceIte]
+              exact handlePUBREC_kq h p ppr hpp hnl ((hst 12 (by omega) ha).2.2.1 (by omega) (by omega) (by omega)) m (decodeAck_lt hwf hd)
+            · simp only [ha, Bool.false_eq_true, ↓reduceIte]; exact KQ.refl w
+        · -- PUBREL
+          cases hd : decodePUBREL (h0 :: rest) with
+          | error e => exact (emit_same w _).kq
+          | ok md =>
+            obtain ⟨m, dd⟩ := md
+            simp only
+            by_cases ha : allowed w p 13 = true
+            · simp only [ha, ↓reduceIte]
+              exact (cs_handlePUBREL p m w).kq
+            · simp only [ha, Bool.false_eq_true, ↓reduceIte]; exact KQ.refl w
+        · -- PUBCOMP
+          cases hd : decodeAck (h0 :: rest) with
+          | error e => exact (emit_same w _).kq
+          | ok m =>
+            simp only
+            by_cases ha : allowed w p 14 = true
+            · simp only [ha, ↓reduceIte]
+              exact handlePUBCOMP_kq h p ppr hpp hnl ((hst 14 (by omega) ha).2.2.1 (by omega) (by omega) (by omega)) m
+            · simp only [ha, Bool.false_eq_true, ↓reduceIte]; exact KQ.refl w
+        · -- SUBACK
+          cases hd : SubackF.decode (h0 :: rest) with
+          | error e => exact (emit_same w _).kq
+          | ok sa =>
+            simp only
+            by_cases ha : allowed w p 8 = true
+            · simp only [ha, ↓reduceIte]
+              exact handleSubUnsubAck_kq h p ppr hpp hnl ((hst 8 (by omega) ha).2.2.1 (by omega) (by omega) (by omega)) true _ _
+            · simp only [ha, Bool.false_eq_true, ↓reduceIte]; exact KQ.refl w
+        · -- UNSUBACK
+          cases hd : decodeAck (h0 :: rest) with
+          | error e => exact (emit_same w _).kq
+          | ok m =>
+            simp only
+            by_cases ha : allowed w p 9 = true
+            · simp only [ha, ↓reduceIte]
+              exact handleSubUnsubAck_kq h p ppr hpp hnl ((hst 9 (by omega) ha).2.2.1 (by omega) (by omega) (by omega)) false _ _
+            · simp only [ha, Bool.false_eq_true, ↓reduceIte]; exact KQ.refl w
+        · -- PINGRESP
+          by_cases ha : allowed w p 7 = true
+          · simp only [ha, ↓reduceIte]
+            exact (cs_handlePINGRESP p w).kq
+          · simp only [ha, Bool.false_eq_true, ↓reduceIte]; exact KQ.refl w
+
+theorem accumulate_kq (p : Nat) (fuel : Nat) : ∀ {w : World}, WInv w → (∃ ppr, w.protos.get? p = some ppr ∧ ppr.lost = false) →
+    KQ w (accumulate p fuel w).1 := by
   induction fuel with
-  | zero => intro w _ _ hq; exact ⟨Keeps.refl w, hq⟩
+  | zero => intro w _ _; exact KQ.refl w
   | succ f ih =>
-    intro w h hpp hq
-    have hpa : w.paddr p = ppr.addr := by simp [World.paddr, getD_of_get? hpp]
-    simp only [refillW, hpa]
-    cases hit : Ents.items w.ents ppr.addr .queue with
-    | nil => exact ⟨Keeps.refl w, hq⟩
-    | cons e rest =>
+    intro w h ⟨ppr, hpp, hnl⟩
+    simp only [accumulate, read_apply, getD_of_get? hpp]
+    cases hfp : firstPacket ppr.buffer with
+    | none => exact KQ.refl w
+    | some pr =>
+      obtain ⟨pkt, rest⟩ := pr
       simp only
-      split
-      · have hl := launch_inv h p dup ppr hpp hlive hit
-        obtain ⟨k1, q1⟩ := launch_keeps h hq p dup ppr.addr hit
-        have hp2 : (retryPublishW p e.rid dup
-            (if (w.req e.rid).msgId ≠ 0 then
-              (w.setEnts fun es => Ents.dropFirst es ppr.addr .queue).setEnts fun es => Ents.insert es ppr.addr .pub (w.req e.rid).msgId e.rid
-             else w.setEnts fun es => Ents.dropFirst es ppr.addr .queue)).protos = w.protos := by
-          rw [retryPublishW_protos]; split <;> rfl
-        obtain ⟨k2, q2⟩ := ih hl (by rw [hp2]; exact hpp) q1
-        exact ⟨k1.trans k2, q2⟩
-      · exact ⟨Keeps.refl w, hq⟩
+      obtain ⟨hcat, hlen⟩ := firstPacket_some _ _ _ hfp
+      have hbuf := h.bufOk p ppr hpp
+      have hpw : Bytes.WF pkt := fun b hb => hbuf b (by rw [hcat]; exact List.mem_append_left _ hb)
+      have hrw : Bytes.WF rest := fun b hb => hbuf b (by rw [hcat]; exact List.mem_append_right _ hb)
+      have hne : pkt ≠ [] := by intro hc; rw [hc] at hlen; simp at hlen
+      obtain ⟨a1, a2⟩ := processPacket_inv h p ppr hpp hnl pkt hne hpw
+      have k1 := processPacket_kq h p ppr hpp hnl pkt hne hpw
+      obtain ⟨ppr1, b1, b2, _⟩ := kl_processPacket p pkt w p ppr hpp
+      obtain ⟨w1, hw1⟩ : ∃ w1, w1 = (processPacket p pkt w).1 := ⟨_, rfl⟩
+      have s1 : processPacket p pkt w = (w1, none) := by rw [hw1]; exact Prod.ext rfl a1
+      rw [← hw1] at a2 b1 k1
+      rw [seq_ok s1]
+      obtain ⟨c1, c2, c3⟩ := setBuffer_inv a2 p ppr1 b1 (fun _ => rest) hrw
+      have k2 : KQ w1 (setProto p (fun pr => { pr with buffer := rest }) w1).1 := (cs_setProto p _ w1).kq
+      obtain ⟨w2, hw2⟩ : ∃ w2, w2 = (setProto p (fun pr => { pr with buffer := rest }) w1).1 := ⟨_, rfl⟩
+      have s2 : setProto p (fun pr => { pr with buffer := rest }) w1 = (w2, none) := by rw [hw2]; exact Prod.ext rfl c1
+      rw [← hw2] at k2
+      rw [seq_ok s2]
+      exact (k1.trans k2).trans (ih (hw2 ▸ c2) ⟨{ ppr1 with buffer := rest }, hw2 ▸ c3, by rw [← hnl, ← b2]⟩)
+
+theorem dataReceived_kq {w : World} (h : WInv w) (p : Nat) (ppr : Proto) (hpp : w.protos.get? p = some ppr) (hnl : ppr.lost = false)
+    (data : Bytes) (hd : Bytes.WF data) : KQ w (dataReceived p data w).1 := by
+  have hw : Bytes.WF (ppr.buffer ++ data) := by
+    intro b hb
+    rcases List.mem_append.mp hb with hb | hb
+    · exact h.bufOk p ppr hpp b hb
+    · exact hd b hb
+  obtain ⟨c1, c2, c3⟩ := setBuffer_inv h p ppr hpp (fun b => b ++ data) hw
+  have k2 : KQ w (setProto p (fun pr => { pr with buffer := pr.buffer ++ data }) w).1 := (cs_setProto p _ w).kq
+  obtain ⟨w2, hw2⟩ : ∃ w2, w2 = (setProto p (fun pr => { pr with buffer := pr.buffer ++ data }) w).1 := ⟨_, rfl⟩
+  have s2 : setProto p (fun pr => { pr with buffer := pr.buffer ++ data }) w = (w2, none) := by rw [hw2]; exact Prod.ext rfl c1
+  rw [← hw2] at k2
+  simp only [dataReceived]
+  rw [seq_ok s2, read_apply]
+  exact k2.trans (accumulate_kq p _ (hw2 ▸ c2) ⟨{ ppr with buffer := ppr.buffer ++ data }, hw2 ▸ c3, hnl⟩)
+
+/-! ### timers -/
+
+theorem cs_doPingRequest (p : Nat) : CS (doPingRequest p) := by unfold doPingRequest; cs
+theorem cs_ping (p : Nat) : CS (ping p) := by
+  unfold ping
+  apply cs_read; intro w
+  split
+  · exact cs_doPingRequest p
+  · exact cs_raise _
+
+theorem cs_loopRun (p : Nat) : CS (loopRun p) := by
+  intro w
+  have h1 := cs_ping p w
+  unfold loopRun
+  rcases hp : ping p w with ⟨w1, _ | e⟩
+  · rw [hp] at h1
+    simp only
+    refine h1.trans ?_
+    have : CS (Step.read fun w =>
+      match (w.proto p).pingTimer with
+      | some l =>
+        if l.running then
+          callLater l.interval (.pingLoop p) fun tid =>
+            setProto p (fun pr => { pr with pingTimer := (pr.pingTimer.map fun l => { l with call := some tid }) })
+        else Step.ok
+      | none => Step.ok) := by cs
+    exact this w1
+  · rw [hp] at h1
+    simp only
+    exact h1.trans (cs_setProto _ _ w1)
+
+/-- the CONNACK deadline: the pending connect() Deferred fails and leaves its handshake record -/
+theorem runTimer_connack_kq (cr : Nat) (w : World) : KQ w (runTimer (.connack cr) w).1 := by
+  simp only [runTimer, read_apply]
+  cases hc : w.connReqs.get? cr with
+  | none => exact KQ.refl w
+  | some c =>
+    simp only
+    cases hd : c.dfd with
+    | none => exact KQ.refl w
+    | some d =>
+      simp only
+      by_cases hf : d ∈ w.fired
+      · have : fireDfd d (.fail .timeout) w = (w, some .alreadyCalledDfd) := by simp [fireDfd, hf, Step.raise]
+        simp only [Step.seq, this]
+        exact KQ.refl w
+      · rw [seq_ok (fireDfd_unfired w d _ hf)]
+        simp only [Step.seq, mod_apply, abort, emit]
+        intro hq
+        refine ⟨⟨fun d' hd' => ?_, fun d' hd' => by simp [fireD, World.emit]; exact Or.inr hd', Nat.le_refl _,
+          fun d' h1 h2 => absurd h2 (by simp only [fireD, World.emit]; omega)⟩, fun y hy hm => hq y hy hm⟩
+        rcases hd' with ⟨y, hy, hyd⟩ | ⟨cr', c', c1, c2⟩
+        · exact Or.inr (Or.inl ⟨y, hy, hyd⟩)
+        · by_cases hcc : cr = cr'
+          · subst hcc
+            rw [hc] at c1; injection c1 with c1; subst c1
+            rw [hd] at c2; injection c2 with c2; subst c2
+            left; simp [fireD, World.emit]
+          · right; right
+            refine ⟨cr', c', ?_, c2⟩
+            simp only [fireD, World.emit, Dict.get?_set, hcc, ↓reduceIte]
+            exact c1
+
+theorem runTimer_kq (k : TKind) (w : World) : KQ w (runTimer k w).1 := by
+  cases k with
+  | connack cr => exact runTimer_connack_kq cr w
+  | pingLoop p => exact (cs_seq (cs_setProto _ _) (cs_loopRun p) w).kq
+  | pingAlarm p => exact (cs_seq (cs_setProto _ _) (cs_emit _) w).kq
+  | retry p rid =>
+    have : CS (runTimer (.retry p rid)) := by unfold runTimer; cs
+    exact (this w).kq
+  | onDisc p r => exact (cs_emit _ w).kq
+
+theorem fireTimer_kq (t : Nat) (w : World) : KQ w (fireTimer t w).1 := by
+  simp only [fireTimer, read_apply]
+  cases ht : w.timers.get? t with
+  | none => exact (cs_emit _ w).kq
+  | some tm =>
+    simp only
+    by_cases hs : tm.status = .pending
+    · simp only [hs, ↓reduceIte, Step.seq, mod_apply]
+      refine KQ.trans (b := { w with now := max w.now tm.due, timers := w.timers.set t { tm with status := .called } }) ?_ (runTimer_kq _ _)
+      exact CoreSame.kq ⟨rfl, rfl, rfl, rfl, fun _ => ⟨rfl, rfl⟩⟩
+    · simp only [hs, ↓reduceIte]
+      exact (cs_emit _ w).kq
+
+/-! ### API calls: a new request (or handshake record) is created together with its Deferred -/
+
+/-- a request record is added at a fresh index together with an entry that refers to it; whatever Deferreds were allocated
+    since the base counter `n` are owned afterwards -/
+theorem keeps_add {w w2 : World} (n rid : Nat) (hrf : ∀ y ∈ w.ents, y.rid ≠ rid)
+    (hreq : ∀ r, r ≠ rid → w2.req r = w.req r) (hents : ∀ y ∈ w.ents, y ∈ w2.ents)
+    (hf : w2.fired = w.fired) (hc : w2.connReqs = w.connReqs) (hn : n ≤ w2.nextDfd)
+    (hnew : ∀ d, n ≤ d → d < w2.nextDfd → OwnedBy w2 d) : Keeps { w with nextDfd := n } w2 := by
+  refine ⟨fun d hd => Or.inr ?_, fun d hd => by rw [hf]; exact hd, hn, fun d h1 h2 => Or.inr (hnew d h1 h2)⟩
+  rcases hd with ⟨y, hy, hyd⟩ | ⟨cr, c, c1, c2⟩
+  · exact Or.inl ⟨y, hents y hy, by rw [hreq _ (hrf y hy)]; exact hyd⟩
+  · exact Or.inr ⟨cr, c, by rw [hc]; exact c1, c2⟩
+
+theorem mkStep_kq {x : Option Nat} {w : World} (h : WInvX x w) (p : Nat) (ppr : Proto) (hpp : w.protos.get? p = some ppr)
+    (hnl : ppr.lost = false) (pr : Proto) (qosn msgId : Nat) (dfd : Option Nat) (bs : Bytes)
+    (hidf : msgId ≠ 0 → ∀ y ∈ w.ents, idOf w y ≠ msgId)
+    (hsome : msgId ≠ 0 → dfd ≠ none)
+    (hd : ∀ d, dfd = some d → d < w.nextDfd ∧ d ∉ w.fired ∧ (∀ y ∈ w.ents, (w.req y.rid).dfd ≠ some d) ∧
+      (∀ cr c, w.connReqs.get? cr = some c → c.dfd ≠ some d))
+    (n : Nat) (hn : n ≤ w.nextDfd) (hdn : ∀ d, n ≤ d → d < w.nextDfd → dfd = some d) (hm0 : msgId = 0 → dfd = none) (hq : Q0 w) :
+    Keeps { w with nextDfd := n } (mkStep p pr qosn msgId dfd bs w).1 ∧ Q0 (mkStep p pr qosn msgId dfd bs w).1 := by
+  have hpa : w.paddr p = ppr.addr := by simp [World.paddr, getD_of_get? hpp]
+  obtain ⟨nr, hnr⟩ : ∃ nr : Req, nr = { kind := .publish, msgId := msgId, qos := qosn, encoded := bs, dfd := dfd, alarm := none, initial := pr.initialT, ivValue := pr.initialT, ivK := 1, bandwith := pr.bandwith, factor := pr.factor, seq := w.nextSeq } := ⟨_, rfl⟩
+  have hnew : ∀ y ∈ w.ents, y.rid ≠ w.nextReq := fun y hy hc => by have := h.ridFresh y hy; omega
+  have hQ := addQueue_inv h ppr.addr w.nextReq nr (w.nextReq + 1) w.nextDfd (w.nextSeq + 1)
+    hnew (Nat.lt_succ_self _) (Nat.le_succ _) (Nat.le_refl _) (by rw [hnr]; exact hidf) (by rw [hnr]) (by rw [hnr]; exact hsome) (by rw [hnr]; exact hd)
+  simp only [mkStep, read_apply, hpa]
+  have s1 : (Step.mod (fun w' : World => { w' with
+      reqs := w'.reqs.set w.nextReq { kind := .publish, msgId := msgId, qos := qosn, encoded := bs, dfd := dfd, alarm := none, initial := pr.initialT, ivValue := pr.initialT, ivK := 1, bandwith := pr.bandwith, factor := pr.factor, seq := w'.nextSeq },
+      nextReq := w.nextReq + 1, nextSeq := w'.nextSeq + 1 }) ;;
+    setEnts (fun es => es ++ [⟨ppr.addr, .queue, 0, w.nextReq⟩])) w
+      = (addQueue w ppr.addr w.nextReq nr (w.nextReq + 1) w.nextDfd (w.nextSeq + 1), none) := by rw [hnr]; rfl
+  rw [← seq_assoc, seq_ok s1]
+  obtain ⟨w2, hw2⟩ : ∃ w2, w2 = addQueue w ppr.addr w.nextReq nr (w.nextReq + 1) w.nextDfd (w.nextSeq + 1) := ⟨_, rfl⟩
+  rw [← hw2] at hQ ⊢
+  have hreq : ∀ r0, w2.req r0 = if w.nextReq = r0 then nr else w.req r0 := fun r0 => req_set w w.nextReq _ r0 _ (by rw [hw2]; rfl)
+  have hmem : ∀ y, y ∈ w2.ents ↔ y ∈ w.ents ∨ y = ⟨ppr.addr, .queue, 0, w.nextReq⟩ := by intro y; rw [hw2]; simp [addQueue]
+  have hnd2 : w2.nextDfd = w.nextDfd := by rw [hw2]; rfl
+  have k1 : Keeps { w with nextDfd := n } w2 := by
+    refine keeps_add n w.nextReq hnew (fun r hr => by rw [hreq]; rw [if_neg (fun hc => hr hc.symm)]) (fun y hy => (hmem y).mpr (Or.inl hy))
+      (by rw [hw2]; rfl) (by rw [hw2]; rfl) (by rw [hnd2]; exact hn) (fun d h1 h2 => ?_)
+    rw [hnd2] at h2
+    exact Or.inl ⟨⟨ppr.addr, .queue, 0, w.nextReq⟩, (hmem _).mpr (Or.inr rfl), by rw [hreq]; simp only [↓reduceIte]; rw [hnr]; exact hdn d h1 h2⟩
+  have q1 : Q0 w2 := by
+    intro y hy hm
+    rcases (hmem y).mp hy with hy1 | rfl
+    · rw [hreq, if_neg (fun hc => hnew y hy1 hc.symm)] at hm ⊢; exact hq y hy1 hm
+    · rw [hreq] at hm ⊢; simp only [↓reduceIte] at hm ⊢; rw [hnr] at hm ⊢; exact hm0 hm
+  have hpp2 : w2.protos.get? p = some ppr := by rw [hw2]; exact hpp
+  obtain ⟨k2, q2⟩ := refillW_keeps (x := x) p false ppr hnl (Ents.count w2.ents (w2.paddr p) .queue) hQ hpp2 q1
+  exact ⟨k1.trans k2, q2⟩
+
+theorem keeps_counters (w : World) (i k : Nat) : CoreSame w { w with nextId := i, idAllocs := k } := ⟨rfl, rfl, rfl, rfl, fun _ => ⟨rfl, rfl⟩⟩
+
+theorem q0_counters {w : World} (i k nd : Nat) (h : Q0 w) : Q0 { w with nextId := i, idAllocs := k, nextDfd := nd } := fun y hy hm => h y hy hm
+
+theorem apiPublish_kq {w : World} (h : WInv w) (p : Nat) (topic : PyStr) (payload : Payload) (qos : Int) (retain : Bool)
+    (hex : Exists w p) (hfree : FreeId w) : KQ w (apiPublish p topic payload qos retain w).1 := by
+  obtain ⟨ppr, hpp⟩ := hex
+  rw [apiPublish_eq]
+  by_cases ha : allowed w p 4 = true
+  · simp only [ha, Bool.not_true, Bool.false_eq_true, ↓reduceIte]
+    obtain ⟨hnl, _⟩ := live_of_allowed h p ppr hpp 4 (by omega) (by omega) ha
+    split
+    · exact (emit_same w _).kq
+    · split
+      · -- QoS 0
+        cases henc : encodePublishPy topic payload 0 retain none with
+        | error e => exact (emit_same w _).kq
+        | ok bs =>
+          simp only
+          obtain ⟨a, b⟩ := mkStep_inv h p ppr hpp hnl (w.proto p) qos.toNat 0 none bs (fun hc => absurd rfl hc) (fun hc => absurd rfl hc)
+            (fun d hd => by cases hd)
+          intro hq
+          obtain ⟨k, q⟩ := mkStep_kq h p ppr hpp hnl (w.proto p) qos.toNat 0 none bs (fun hc => absurd rfl hc) (fun hc => absurd rfl hc)
+            (fun d hd => by cases hd) w.nextDfd (Nat.le_refl _) (fun d h1 h2 => absurd h2 (by omega)) (fun _ => rfl) hq
+          rw [seq_ok (Prod.ext rfl a)]
+          exact ⟨k.trans (emit_same _ _).keeps, (emit_same _ _).q0 q⟩
+      · -- QoS 1, 2
+        obtain ⟨i, hi1, hi2, hi3, hmk⟩ := C17.makeId_counter w (fun i =>
+           match encodePublishPy topic payload qos.toNat retain (some (i : Int)) with
+           | .error e => emit (.retFail e)
+           | .ok bs => newDfd fun d => mkStep p (w.proto p) qos.toNat i (some d) bs ;; emit (.retPending d (some i)))
+        erw [hmk]
+        have hfr : idInUse w i = false := by rw [hi3]; exact C17.scanId_fresh w w.nextId h.idCounter hfree
+        cases henc : encodePublishPy topic payload qos.toNat retain (some (i : Int)) with
+        | error e => exact ((keeps_counters w i _).trans (emit_same _ _)).kq
+        | ok bs =>
+          simp only [newDfd, read_apply]
+          have s1 : Step.mod (fun w' : World => { w' with nextDfd := w.nextDfd + 1 }) { w with nextId := i, idAllocs := w.idAllocs + 1 }
+              = ({ w with nextId := i, idAllocs := w.idAllocs + 1, nextDfd := w.nextDfd + 1 }, none) := rfl
+          rw [seq_ok s1]
+          have h2 := counters_inv h i (w.idAllocs + 1) (w.nextDfd + 1) hi2 (Nat.le_succ _)
+          have hdd : ∀ d, some w.nextDfd = some d → d < w.nextDfd + 1 ∧ d ∉ w.fired ∧ (∀ y ∈ w.ents, (w.req y.rid).dfd ≠ some d) ∧
+              (∀ cr c, w.connReqs.get? cr = some c → c.dfd ≠ some d) := by
+            intro d hd
+            injection hd with hd; subst hd
+            refine ⟨Nat.lt_succ_self _, fun hc => Nat.lt_irrefl _ (h.firedFresh _ hc), fun y hy hc => ?_, fun cr c hc hcd => ?_⟩
+            · exact Nat.lt_irrefl _ (h.dfdFresh y hy _ hc).1
+            · exact Nat.lt_irrefl _ (h.connReqFresh cr c _ hc hcd)
+          obtain ⟨a, b⟩ := mkStep_inv h2 p ppr hpp hnl (w.proto p) qos.toNat i (some w.nextDfd) bs
+            (fun _ => idInUse_false hfr) (fun _ => by simp) hdd
+          intro hq
+          obtain ⟨k, q⟩ := mkStep_kq h2 p ppr hpp hnl (w.proto p) qos.toNat i (some w.nextDfd) bs
+            (fun _ => idInUse_false hfr) (fun _ => by simp) hdd w.nextDfd (Nat.le_succ _)
+            (fun d h1 h2 => by congr 1; show w.nextDfd = d; have : d < w.nextDfd + 1 := h2; omega) (fun hc => by omega) (q0_counters i _ _ hq)
+          rw [seq_ok (Prod.ext rfl a)]
+          have k0 : Keeps w { w with nextId := i, idAllocs := w.idAllocs + 1 } := (keeps_counters w i _).keeps
+          exact ⟨(k0.trans k).trans (emit_same _ _).keeps, (emit_same _ _).q0 q⟩
+  · simp only [ha, Bool.not_false, ↓reduceIte]
+    exact (emit_same w _).kq
+
+theorem registerSubUnsub_kq {x : Option Nat} {w : World} (h : WInvX x w) (p : Nat) (ppr : Proto) (hpp : w.protos.get? p = some ppr)
+    (isSub : Bool) (i : Nat) (hi0 : i ≠ 0) (hfr : idInUse w i = false) (bs : Bytes) : KQ w (registerSubUnsub p isSub i bs w).1 := by
+  have hpa : w.paddr p = ppr.addr := by simp [World.paddr, getD_of_get? hpp]
+  have hidf := idInUse_false hfr
+  generalize hbox : (if isSub then Box.sub else Box.unsub) = box
+  have hbq : box ≠ .queue := by cases isSub <;> simp at hbox <;> subst hbox <;> simp
+  let nr : Req := { kind := if isSub then .subscribe else .unsubscribe, msgId := i, qos := 1, encoded := bs, dfd := some w.nextDfd, alarm := none, initial := ppr.initialT, ivValue := ppr.initialT, ivK := 1, bandwith := 1, factor := 1, seq := 0 }
+  have hlook : Ents.lookup w.ents ppr.addr box i = none := by
+    cases hl2 : Ents.lookup w.ents ppr.addr box i with
+    | none => rfl
+    | some r2 => exact absurd (by simp [idOf, hbq]) (hidf _ (Ents.lookup_some hl2))
+  have hins : Ents.insert w.ents ppr.addr box i w.nextReq = w.ents ++ [⟨ppr.addr, box, i, w.nextReq⟩] :=
+    Ents.insert_of_lookup_none _ hlook
+  let w4 : World := { w with nextDfd := w.nextDfd + 1, reqs := w.reqs.set w.nextReq nr, nextReq := w.nextReq + 1,
+                             ents := w.ents ++ [⟨ppr.addr, box, i, w.nextReq⟩] }
+  have hstep : registerSubUnsub p isSub i bs w = ((retrySubUnsubW p w.nextReq false isSub w4).emit (.retPending w.nextDfd (some i)), none) := by
+    simp only [registerSubUnsub, read_apply, newDfd, getD_of_get? hpp, hpa, hbox]
+    have s1 : Step.mod (fun w' : World => { w' with nextDfd := w.nextDfd + 1 }) w = ({ w with nextDfd := w.nextDfd + 1 }, none) := rfl
+    rw [seq_ok s1]
+    simp only [Step.seq, Step.mod, setEnts, World.setEnts, retrySubUnsub, emit]
+    rw [hins]
+  rw [hstep]
+  have hnew : ∀ y ∈ w.ents, y.rid ≠ w.nextReq := fun y hy hc => by have := h.ridFresh y hy; omega
+  have h4req : ∀ r, w4.req r = if w.nextReq = r then nr else w.req r := fun r => req_set w w.nextReq _ r _ rfl
+  have hmem : ∀ y, y ∈ w4.ents ↔ y ∈ w.ents ∨ y = ⟨ppr.addr, box, i, w.nextReq⟩ := by intro y; simp [w4]
+  intro hq
+  have k1 : Keeps { w with nextDfd := w.nextDfd } w4 := by
+    refine keeps_add w.nextDfd w.nextReq hnew (fun r hr => by rw [h4req]; rw [if_neg (fun hc => hr hc.symm)]) (fun y hy => (hmem y).mpr (Or.inl hy))
+      rfl rfl (Nat.le_succ _) (fun d h1 h2 => ?_)
+    have hd : d = w.nextDfd := by have : d < w.nextDfd + 1 := h2; omega
+    subst hd
+    exact Or.inl ⟨⟨ppr.addr, box, i, w.nextReq⟩, (hmem _).mpr (Or.inr rfl), by rw [h4req]; simp [nr]⟩
+  have q1 : Q0 w4 := by
+    intro y hy hm
+    rcases (hmem y).mp hy with hy1 | rfl
+    · rw [h4req, if_neg (fun hc => hnew y hy1 hc.symm)] at hm ⊢; exact hq y hy1 hm
+    · rw [h4req] at hm; simp only [↓reduceIte, nr] at hm; exact absurd hm hi0
+  have c := (retrySubUnsubW_same p w.nextReq false isSub w4).trans (emit_same _ (.retPending w.nextDfd (some i)))
+  exact ⟨k1.trans c.keeps, c.q0 q1⟩
+
+theorem apiSubscribe_kq {w : World} (h : WInv w) (p : Nat) (arg : SubArg) (qos : Int) (hex : Exists w p) (hfree : FreeId w) :
+    KQ w (apiSubscribe p arg qos w).1 := by
+  obtain ⟨ppr, hpp⟩ := hex
+  simp only [apiSubscribe, read_apply]
+  by_cases ha : allowed w p 2 = true
+  · simp only [ha, Bool.not_true, Bool.false_eq_true, ↓reduceIte]
+    by_cases hwin : Ents.count w.ents (w.paddr p) .sub ≥ (w.proto p).window
+    · simp only [hwin, ↓reduceIte]; exact (emit_same w _).kq
+    · simp only [hwin, ↓reduceIte]
+      cases arg with
+      | other => exact (emit_same w _).kq
+      | _ =>
+        simp only []
+        split
+        · exact (emit_same w _).kq
+        · rw [makeId_apply]
+          have hi := C17.scanId_range w w.nextId
+          have hfr := C17.scanId_fresh w w.nextId h.idCounter hfree
+          have h1 := counters_inv h (scanId w 65535 w.nextId) (w.idAllocs + 1) w.nextDfd hi.2 (Nat.le_refl _)
+          have k0 := (keeps_counters w (scanId w 65535 w.nextId) (w.idAllocs + 1)).kq
+          generalize encodeWithId _ _ _ = E
+          cases E with
+          | error e => exact k0.trans (emit_same _ _).kq
+          | ok bs => exact k0.trans (registerSubUnsub_kq h1 p ppr hpp true _ (by omega) hfr bs)
+  · simp only [ha, Bool.not_false, ↓reduceIte]
+    exact (emit_same w _).kq
+
+theorem apiUnsubscribe_kq {w : World} (h : WInv w) (p : Nat) (arg : UnsubArg) (hex : Exists w p) (hfree : FreeId w) :
+    KQ w (apiUnsubscribe p arg w).1 := by
+  obtain ⟨ppr, hpp⟩ := hex
+  simp only [apiUnsubscribe, read_apply]
+  by_cases ha : allowed w p 3 = true
+  · simp only [ha, Bool.not_true, Bool.false_eq_true, ↓reduceIte]
+    rw [makeId_apply]
+    have hi02 := (C17.scanId_range w w.nextId).2
+    have h1' := counters_inv h (scanId w 65535 w.nextId) (w.idAllocs + 1) w.nextDfd hi02 (Nat.le_refl _)
+    have k0 := (keeps_counters w (scanId w 65535 w.nextId) (w.idAllocs + 1)).kq
+    obtain ⟨w1, hw1⟩ : ∃ w1 : World, w1 = { w with nextId := scanId w 65535 w.nextId, idAllocs := w.idAllocs + 1 } := ⟨_, rfl⟩
+    rw [← hw1] at h1' k0 ⊢
+    have hpp1 : w1.protos.get? p = some ppr := by rw [hw1]; exact hpp
+    have hfree1 : FreeId w1 := by rw [hw1]; exact hfree
+    simp only [read_apply]
+    by_cases hwin : Ents.count w1.ents (w1.paddr p) .unsub ≥ (w1.proto p).window
+    · simp only [hwin, ↓reduceIte]; exact k0.trans (emit_same _ _).kq
+    · simp only [hwin, ↓reduceIte]
+      cases arg with
+      | other => exact k0.trans (emit_same _ _).kq
+      | _ =>
+        simp only []
+        rw [makeId_apply]
+        have hi := C17.scanId_range w1 w1.nextId
+        have hfr := C17.scanId_fresh w1 w1.nextId h1'.idCounter hfree1
+        have h2 := counters_inv h1' (scanId w1 65535 w1.nextId) (w1.idAllocs + 1) w1.nextDfd hi.2 (Nat.le_refl _)
+        have k1 := (keeps_counters w1 (scanId w1 65535 w1.nextId) (w1.idAllocs + 1)).kq
+        generalize encodeWithId _ _ _ = E
+        cases E with
+        | error e => exact (k0.trans k1).trans (emit_same _ _).kq
+        | ok bs => exact (k0.trans k1).trans (registerSubUnsub_kq h2 p ppr hpp1 false _ (by omega) hfr bs)
+  · simp only [ha, Bool.not_false, ↓reduceIte]
+    exact (emit_same w _).kq
+
+theorem connStartW_kq {w : World} (h : WInv w) (p : Nat) (npr : Proto) (due ka : Nat) (log' : List Obs) :
+    KQ w (connStartW w p npr due ka log') := by
+  intro hq
+  have hcq : ∀ cr, (connStartW w p npr due ka log').connReqs.get? cr =
+      if w.nextCR = cr then some ⟨p, ka, some w.nextDfd, w.nextTimer⟩ else w.connReqs.get? cr := by
+    intro cr; simp only [connStartW, Dict.get?_set]
+  refine ⟨⟨fun d hd => Or.inr ?_, fun d hd => hd, Nat.le_succ _, fun d h1 h2 => Or.inr (Or.inr ?_)⟩, fun y hy hm => hq y hy hm⟩
+  · rcases hd with ⟨y, hy, hyd⟩ | ⟨cr, c, c1, c2⟩
+    · exact Or.inl ⟨y, hy, hyd⟩
+    · refine Or.inr ⟨cr, c, ?_, c2⟩
+      rw [hcq, if_neg (fun hc => by have := h.crFresh cr c c1; omega)]
+      exact c1
+  · have hd : d = w.nextDfd := by have : d < w.nextDfd + 1 := h2; omega
+    subst hd
+    exact ⟨w.nextCR, ⟨p, ka, some w.nextDfd, w.nextTimer⟩, by rw [hcq]; simp, rfl⟩
+
+theorem apiConnect_kq {w : World} (h : WInv w) (p : Nat) (a : ConnectArgs) (hlive : Live w p) : KQ w (apiConnect p a w).1 := by
+  obtain ⟨ppr, hpp, hnl⟩ := hlive
+  unfold apiConnect
+  generalize a.toF.encode = E
+  simp only [read_apply]
+  by_cases ha : allowed w p 0 = true
+  · simp only [ha, Bool.not_true, Bool.false_eq_true, ↓reduceIte]
+    split
+    · exact (emit_same w _).kq
+    · cases E with
+      | error e =>
+        simp only
+        split
+        · exact (emit_same w _).kq
+        · exact KQ.refl w
+      | ok pdu =>
+        simp only
+        have hfin : (setProto p (fun pr => { pr with cleanStart := a.cleanStart, version := verOf a.version }) ;;
+            write p pdu ;;
+            setProto p (fun pr => { pr with state := .connecting }) ;;
+            Step.read fun w =>
+              let cr := w.nextCR
+              let ka := a.keepalive.toNat
+              callLater (if ka = 0 then 10 else ka) (.connack cr) fun tid =>
+                newDfd fun d =>
+                  Step.mod (fun w => { w with connReqs := w.connReqs.set cr ⟨p, ka, some d, tid⟩, nextCR := cr + 1 }) ;;
+                  setProto p (fun pr => { pr with connReq := some cr }) ;;
+                  emit (.retPending d none)) w
+            = (connStartW w p { ppr with cleanStart := a.cleanStart, version := verOf a.version, state := .connecting, connReq := some w.nextCR }
+                (w.now + ticks (if a.keepalive.toNat = 0 then 10 else (a.keepalive.toNat : Rat))) a.keepalive.toNat
+                ((w.log ++ [.write p pdu]) ++ [.retPending w.nextDfd none]), none) := by
+          simp only [Step.seq, setProto, Step.mod, write, emit, World.emit, Step.read, callLater, newDfd, World.callLater, World.proto,
+            Dict.get?_set, ↓reduceIte, Option.getD_some, hpp, Dict.set_set, connStartW]
+        rw [hfin]
+        exact connStartW_kq h p _ _ _ _
+  · simp only [ha, Bool.not_false, ↓reduceIte]
+    exact (emit_same w _).kq
+
+/-! ### every operation -/
+
+/-- no operation of the model leaves a Deferred without owner: the requests' containers and the handshake records account
+    for every Deferred that has been handed out and has not fired -/
+theorem step_kq {w : World} (h : WInv w) (op : Op) (henv : Env w op) : KQ w (step w op) := by
+  have hlog : ∀ (w' : World) (l : List Obs), CoreSame w' { w' with log := l } := fun _ _ => ⟨rfl, rfl, rfl, rfl, fun _ => ⟨rfl, rfl⟩⟩
+  have hstep : ∀ (s : Step), KQ w (s w).1 → KQ w (match s w with
+      | (w', none) => w'
+      | (w', some e) => { w' with log := w'.log ++ [if op.isReactor then .esc e else .raised e] }) := by
+    intro s hk
+    rcases hs : s w with ⟨w', _ | e⟩
+    · rw [hs] at hk; exact hk
+    · rw [hs] at hk; exact hk.trans (hlog _ _).kq
+  unfold step
+  cases op with
+  | build a => exact hstep (buildProtocol a) (CoreSame.kq ⟨rfl, rfl, rfl, rfl, fun _ => ⟨rfl, rfl⟩⟩)
+  | sethandlers p m => exact hstep _ (cs_apiSetHandlers p m w).kq
+  | connect p a => exact hstep _ (apiConnect_kq h p a henv)
+  | disconnect p => exact hstep _ (cs_apiDisconnect p w).kq
+  | publish p t pl q r => exact hstep _ (apiPublish_kq h p t pl q r henv.1 henv.2)
+  | subscribe p a q => exact hstep _ (apiSubscribe_kq h p a q henv.1 henv.2)
+  | unsubscribe p a => exact hstep _ (apiUnsubscribe_kq h p a henv.1 henv.2)
+  | setwin p n => exact hstep _ (cs_apiSetWindow p n w).kq
+  | settimeout p n => exact hstep _ (cs_apiSetTimeout p n w).kq
+  | setbw p b f => exact hstep _ (cs_apiSetBandwith p b f w).kq
+  | jit v => exact hstep (Step.mod fun w => { w with jitter := v }) (CoreSame.kq ⟨rfl, rfl, rfl, rfl, fun _ => ⟨rfl, rfl⟩⟩)
+  | setid v => exact henv.elim
+  | recv p d =>
+    obtain ⟨⟨ppr, hpp, hnl⟩, hd⟩ := henv
+    exact hstep _ (dataReceived_kq h p ppr hpp hnl d hd)
+  | lost p r =>
+    obtain ⟨ppr, hpp, hnl⟩ := henv
+    exact hstep _ (connectionLost_owned h p ppr hpp hnl r).2.2.2.1
+  | fire t => exact hstep _ (fireTimer_kq t w)
+
+theorem run_owned : ∀ (ops : List Op) {w : World}, WInv w → Owned w → Q0 w → EnvRun w ops → Owned (run w ops) ∧ Q0 (run w ops) := by
+  intro ops
+  induction ops with
+  | nil => intro w _ ho hq _; exact ⟨ho, hq⟩
+  | cons op rest ih =>
+    intro w h ho hq henv
+    obtain ⟨k, q⟩ := step_kq h op henv.1 hq
+    exact ih (step_inv h op henv.1) (ho.keeps k) q henv.2
+
+/-- **No Deferred is left hanging.** After every history of API calls, received bytes, connection losses and timer expiries that
+    respects `Env`, from a fresh factory of any profile: every Deferred that has been returned to the application and has not
+    fired is the Deferred of a request still held in a container (transmission queue or one of the four windows) or of a
+    handshake record. The other invariants say what happens to those: window entries of a connected protocol have a retry
+    timer running (`WInv.connected`), a loss fails or keeps them (`connectionLost_owned`), a pending handshake has its
+    deadline timer (`WInv.connecting`). -/
+theorem reachable_owned (profile : Nat) (hp : profile = 1 ∨ profile = 2 ∨ profile = 3) (ops : List Op)
+    (henv : EnvRun (World.init profile) ops) : Owned (run (World.init profile) ops) ∧ Q0 (run (World.init profile) ops) :=
+  run_owned ops (WInv.init profile hp) (fun d hd => absurd hd (by simp [World.init])) (fun y hy => by simp [World.init] at hy) henv
+
+/-- a clean-session loss fires every Deferred held by a request of that address (C11, C07, C16: nothing stays pending) -/
+theorem lost_clean_fires_all {w : World} (h : WInv w) (hq : Q0 w) (p : Nat) (ppr : Proto) (hpp : w.protos.get? p = some ppr)
+    (hnl : ppr.lost = false) (hcs : ppr.cleanStart = true) (reason : Err) :
+    ∀ e ∈ w.ents, e.addr = ppr.addr → ∀ d, (w.req e.rid).dfd = some d → d ∈ (connectionLost p reason w).1.fired := by
+  intro e he hea d hd
+  obtain ⟨_, _, post, kq, hsub, hcr⟩ := connectionLost_owned h p ppr hpp hnl reason
+  rcases (kq hq).1.own d (Or.inl ⟨e, he, hd⟩) with hf | ⟨y, hy, hyd⟩ | ⟨cr, c, c1, c2⟩
+  · exact hf
+  · exfalso
+    have hy0 := hsub y hy
+    rw [(post.req y.rid).1] at hyd
+    have := h.dfdInj y hy0 e he d hyd hd
+    subst this
+    exact post.clean hcs y hy hea
+  · exfalso
+    rw [hcr] at c1
+    by_cases hf : d ∈ w.fired
+    · exact (h.dfdFresh e he d hd).2 hf
+    · exact (h.connReq cr c d c1 c2 hf).2 e he hd
+
+/-- under a persistent session exactly the SUBSCRIBE/UNSUBSCRIBE requests of the address are failed; the Deferred of every
+    publish (held back, awaiting PUBACK/PUBREC, awaiting PUBCOMP) is still owned by its request (C12) -/
+theorem lost_persistent_fires_subs {w : World} (h : WInv w) (hq : Q0 w) (p : Nat) (ppr : Proto) (hpp : w.protos.get? p = some ppr)
+    (hnl : ppr.lost = false) (hcs : ppr.cleanStart = false) (reason : Err) :
+    ∀ e ∈ w.ents, e.addr = ppr.addr → (e.box = .sub ∨ e.box = .unsub) → ∀ d, (w.req e.rid).dfd = some d →
+      d ∈ (connectionLost p reason w).1.fired := by
+  intro e he hea hb d hd
+  obtain ⟨_, _, post, kq, hsub, hcr⟩ := connectionLost_owned h p ppr hpp hnl reason
+  rcases (kq hq).1.own d (Or.inl ⟨e, he, hd⟩) with hf | ⟨y, hy, hyd⟩ | ⟨cr, c, c1, c2⟩
+  · exact hf
+  · exfalso
+    have hy0 := hsub y hy
+    rw [(post.req y.rid).1] at hyd
+    have := h.dfdInj y hy0 e he d hyd hd
+    subst this
+    exact ((post.persistent hcs y).mp hy).2 ⟨hea, hb⟩
+  · exfalso
+    rw [hcr] at c1
+    by_cases hf : d ∈ w.fired
+    · exact (h.dfdFresh e he d hd).2 hf
+    · exact (h.connReq cr c d c1 c2 hf).2 e he hd
 
 end Mqtt
